@@ -13,7 +13,7 @@ EXPLANATION = (
     "that loop, carries the first iteration's choice into later iterations - so a reported value depends on what else was requested and in what order. R20b alias-then-augment: "
     "`X[k] = E` with X a dict and E persistent array storage, reaching an augmented assignment of the same slot, mutates E in place. R20c (effect summaries): reporting functions "
     "(plotting.py, cascade.py, results.py) do not definitely mutate the Result / Model they are given, and Series.__init__ stores copies of its array arguments. "
-    "R20d: cascade values are extracted only after sanitize_cascade (which validates nesting). Numeric identities (sums, averages, monotone cascades) are not decided."
+    "R20d: cascade values are extracted only after sanitize_cascade (which validates nesting). R20e: the Result getters never hand out the model's own arrays: every value placed in a mapping they return (or edit in place) is a fresh array - a copy or the result of arithmetic - because the getters themselves and the plotting code edit those entries in place. Numeric identities (sums, averages, monotone cascades) are not decided."
 )
 
 
@@ -24,6 +24,7 @@ def run(ctx):
     ctx.each(r20b, ctx, repo, T)
     ctx.each(r20c, ctx, repo, T, E)
     ctx.each(r20d, ctx, repo)
+    ctx.each(r20e, ctx, repo)
 
 
 def _bound_in(loop):
@@ -251,3 +252,68 @@ def r20d(ctx, repo):
     ctx.check(ok, "R20d", sc_, val[0] if val else sc_.node, "sanitize_cascade validates on every returning path", "sanitize_cascade can return without calling validate_cascade")
     vc = repo.func("cascade", "validate_cascade")
     ctx.check(any(isinstance(r, ast.Raise) and r.exc is not None and "InvalidCascade" in ast.unparse(r.exc) for r in own_nodes(vc.node)), "R20d", vc, vc.node, "an improperly nested cascade raises InvalidCascade", "validate_cascade no longer raises InvalidCascade")
+
+
+VIEW_CALLS = {"asarray", "asanyarray", "ravel", "reshape", "view", "squeeze", "atleast_1d", "promotetoarray", "toarray", "transpose", "swapaxes", "get", "pop", "setdefault"}
+
+
+def r20e(ctx, repo):
+    ctx.rule("R20e", "Result.get_coverage / get_equivalent_alloc return fresh arrays: every value stored into a mapping that the getter returns or edits in place is a copy or the result of arithmetic, never an attribute or slice of an existing object")
+    n = 0
+    for q in ("Result.get_coverage", "Result.get_equivalent_alloc"):
+        fi = repo.func("results", q)
+        assigns = {}
+        loopvars = set()
+        for s_ in own_nodes(fi.node):
+            if isinstance(s_, ast.Assign) and len(s_.targets) == 1 and isinstance(s_.targets[0], ast.Name):
+                assigns.setdefault(s_.targets[0].id, []).append(s_.value)
+            elif isinstance(s_, (ast.For, ast.comprehension)):
+                loopvars |= {x.id for x in ast.walk(s_.target) if isinstance(x, ast.Name)}
+        returned = set()
+        for r in own_nodes(fi.node):
+            if isinstance(r, ast.Return) and isinstance(r.value, ast.Name):
+                returned.add(r.value.id)
+        changed = True
+        while changed:
+            changed = False
+            for nm in list(returned):
+                for v in assigns.get(nm, []):
+                    if isinstance(v, ast.Name) and v.id not in returned:
+                        returned.add(v.id)
+                        changed = True
+        # mappings passed on to the coverage computation are edited by `+=` here as well
+        built = {nm for nm in assigns if any(isinstance(v, (ast.Dict, ast.DictComp)) or (isinstance(v, ast.Call) and ast.unparse(v.func) in ("defaultdict", "dict", "sc.odict", "OrderedDict")) for v in assigns[nm])}
+        mappings = returned | built
+
+        def fresh(e, depth=0):
+            if depth > 6:
+                return False
+            if isinstance(e, (ast.Constant, ast.BinOp, ast.UnaryOp, ast.Compare, ast.BoolOp, ast.ListComp, ast.DictComp, ast.Dict, ast.List, ast.Tuple, ast.JoinedStr)):
+                return True
+            if isinstance(e, ast.IfExp):
+                return fresh(e.body, depth + 1) and fresh(e.orelse, depth + 1)
+            if isinstance(e, ast.Call):
+                f = e.func
+                nm = f.attr if isinstance(f, ast.Attribute) else getattr(f, "id", "")
+                if nm in VIEW_CALLS:
+                    src = f.value if isinstance(f, ast.Attribute) and not (isinstance(f.value, ast.Name) and f.value.id in ("np", "sc", "numpy")) else (e.args[0] if e.args else None)
+                    return src is not None and fresh(src, depth + 1)
+                return True
+            if isinstance(e, ast.Name):
+                if e.id in loopvars or e.id in fi.params or e.id not in assigns:
+                    return False
+                return all(fresh(v, depth + 1) for v in assigns[e.id])
+            if isinstance(e, ast.Subscript) and isinstance(e.value, ast.Name) and e.value.id in mappings and e.value.id in built:
+                return True  # an entry of a mapping built here: its stores are checked one by one
+            return False  # attribute, slice of something else, starred ...
+
+        for s_ in own_nodes(fi.node):
+            if isinstance(s_, ast.Assign) and len(s_.targets) == 1 and isinstance(s_.targets[0], ast.Subscript) and isinstance(s_.targets[0].value, ast.Name) and s_.targets[0].value.id in mappings:
+                n += 1
+                ctx.check(fresh(s_.value), "R20e", fi, s_, "`%s` stores a fresh value" % norm(s_)[:50], "`%s` may put an existing array (an attribute or slice of the model, `%s`) into a mapping that %s returns or edits in place (`+=`, `/= self.dt`, NaN masking by plotting): the model's compartment arrays are then rewritten by reporting code, and every later plot or export changes" % (norm(s_)[:60], ast.unparse(s_.value)[:40], q))
+        for nm in returned:
+            for v in assigns.get(nm, []):
+                if isinstance(v, ast.DictComp):
+                    n += 1
+                    ctx.check(fresh(v.value), "R20e", fi, enclosing_stmt(v), "comprehension builds fresh values", "`%s` places existing arrays in the returned mapping" % ast.unparse(v)[:60])
+    ctx.require(n >= 4, "R20e: fewer stores into returned mappings (%d) than confirmed (4)" % n)
